@@ -25,18 +25,18 @@ func init() { fw.Register(c07{}) }
 func (c07) Meta() fw.Meta {
 	return fw.Meta{
 		ID: "C07",
-		Rule: "case = batch of 40 candidates (method, xFilesFactor, archive list): valid lists; lists broken in exactly one rule at its boundary (equal steps, non-dividing step, equal/shorter retention, ratio-1 points, zero step/points, empty list); " +
-			"32-bit overflow families (sizes/offsets beyond 2^32, wrapping consistently; retentions beyond 2^31; steps beyond 2^31); methods 0..9; xFilesFactor over float32 bit-pattern classes (+-0, denormals, 1, next after 1, -eps, +-Inf, NaNs). " +
+		Rule: "case = batch of 40 candidates (method, xFilesFactor, archive list): valid lists; lists broken in exactly one rule at its boundary (equal steps, archives out of order, non-dividing step, equal/shorter retention, ratio-1 points, zero step/points, empty list); " +
+			"32-bit overflow families (sizes/offsets beyond 2^32, wrapping consistently; total sizes within a few slots of 2^32 bytes; retentions beyond 2^31; steps beyond 2^31); methods 0..9; xFilesFactor over float32 bit-pattern classes (+-0, denormals, 1, next after 1, -eps, +-Inf, NaNs). " +
 			"Each candidate goes to NewHeader, Create (size <= 64 MiB), ParseArchiveInfoList (when expressible), Header.TakeFrom and Open of a sparse file carrying the format-prescribed header, and (sampled) the CLI flags through the real binary; " +
 			"all must agree with the predicate valid() written from the statement; accepted ones are created, synced, reopened and compared field by field with the bytes on disk. " +
 			"non-trivial = batch contained accepted and rejected candidates in every entry point; distinct by candidate set.",
 		Assumptions: []string{
-			"a list whose every offset fits 32 bits but whose total file size does not is a don't-care band (the statement's 'every size' is ambiguous there); counted as band_dontcare",
+			"a file of exactly 2^32 bytes (slots addressable, size needs 33 bits) is the only undecided value (counted as band_dontcare); larger files are invalid because slot offsets are computed in the format's 32-bit offset arithmetic",
 			"Open/TakeFrom are given headers with the offsets the format prescribes (low 32 bits when the true offset overflows)",
 			"CLI flag agreement is sampled (real process per invocation), not run for every candidate",
 		},
 		Obligations: []string{"newheader_accept", "newheader_reject", "create_accept", "create_reject", "parse_accept", "parse_reject", "takefrom_accept", "takefrom_reject", "open_accept", "open_reject", "cli_accept", "cli_reject",
-			"reject_equal_steps", "reject_nondividing", "reject_equal_retention", "reject_too_few_points", "reject_zero", "reject_empty", "reject_overflow_offset", "reject_overflow_retention", "reject_method", "reject_xff_nan", "reject_xff_range", "accept_xff_negzero", "reopen_header_equal"},
+			"reject_equal_steps", "reject_out_of_order", "reject_size_beyond_4GiB", "reject_nondividing", "reject_equal_retention", "reject_too_few_points", "reject_zero", "reject_empty", "reject_overflow_offset", "reject_overflow_retention", "reject_method", "reject_xff_nan", "reject_xff_range", "accept_xff_negzero", "reopen_header_equal"},
 	}
 }
 
@@ -74,7 +74,7 @@ func (c07) genCandidate(c *fw.Ctx, j int) c07cand {
 	if k > 1 {
 		i = r.Intn(k - 1)
 	}
-	switch j % 20 {
+	switch j % 20 { // (case 20 is only reached through the fallthrough of case 18)
 	case 0, 1, 2:
 		// valid as generated
 	case 3:
@@ -160,7 +160,16 @@ func (c07) genCandidate(c *fw.Ctx, j int) c07cand {
 	case 17:
 		cd.Xff = math.Float32frombits(r.Uint32())
 		cd.Class = "xff-random-bits"
-	case 18: // boundary: ratio exactly met / retention barely longer
+	case 18:
+		if k > 1 && r.Intn(2) == 0 {
+			// archives out of order (the sorted list would be valid)
+			j := i + 1
+			cd.Archs[i], cd.Archs[j] = cd.Archs[j], cd.Archs[i]
+			cd.Class = "out-of-order"
+			break
+		}
+		fallthrough
+	case 20: // boundary: ratio exactly met / retention barely longer
 		if k > 1 {
 			ratio := cd.Archs[i+1].Step / cd.Archs[i].Step
 			cd.Archs[i].Points = ratio
@@ -169,8 +178,16 @@ func (c07) genCandidate(c *fw.Ctx, j int) c07cand {
 			}
 			cd.Class = "boundary-valid?"
 		}
-	case 19: // largest valid sizes: offset just below 2^32
-		cd.Archs = []model.Arch{{Step: 1, Points: 178956000}, {Step: 2, Points: uint32(178956000 + r.Intn(900))}}
+	case 19: // sizes around 2^32 bytes: 16+12k+12*P in {2^32-24 .. 2^32+36}
+		switch r.Intn(3) {
+		case 0:
+			cd.Archs = []model.Arch{{Step: 1, Points: uint32(357913936 + r.Intn(7))}}
+		case 1:
+			p1 := uint32(100000000 + r.Intn(1000))
+			cd.Archs = []model.Arch{{Step: 1, Points: p1}, {Step: 4, Points: uint32(357913935+r.Intn(7)) - p1}}
+		default:
+			cd.Archs = []model.Arch{{Step: 1, Points: 178956000}, {Step: 2, Points: uint32(178956000 + r.Intn(900))}}
+		}
 		cd.Class = "near-4GiB"
 	}
 	cd.XffB = math.Float32bits(cd.Xff)
@@ -207,6 +224,10 @@ func (c07) Run(c *fw.Ctx) {
 			switch cd.Class {
 			case "equal-steps":
 				c.Count("reject_equal_steps", 1)
+			case "out-of-order":
+				c.Count("reject_out_of_order", 1)
+			case "near-4GiB":
+				c.Count("reject_size_beyond_4GiB", 1)
 			case "non-dividing":
 				c.Count("reject_nondividing", 1)
 			case "equal-retention", "shorter-retention":
